@@ -134,6 +134,35 @@ TWINS += [
 ]
 
 
+def _cli_main_functions(root: Path) -> str | None:
+    """The body of `if __name__ == "__main__":` of both command-line modules becomes a function main() that the block calls."""
+    n = 0
+    for rel in ("explorerscript/cli/compile.py", "explorerscript/cli/decompile.py"):
+        p = root / rel
+        src = p.read_text(encoding="utf-8")
+        head = 'if __name__ == "__main__":'
+        if head not in src:
+            continue
+        i = src.index(head)
+        p.write_text(src[:i] + "def main() -> None:" + src[i + len(head):] + '\n\nif __name__ == "__main__":\n    main()\n', encoding="utf-8")
+        n += 1
+    return None if n == 2 else "main blocks not found"
+
+
+TWINS += [
+    {"id": "twin-cli-main-functions", "what": "the __main__ blocks of both command-line modules moved into functions main()", "transform": _cli_main_functions},
+    {"id": "twin-lexer-spelling", "what": "the highlighting lexer: a pattern written without a raw string, regex flags in the other order",
+     "edits": [("explorerscript/pygments/expslexer.py", '(r"/\\*.*?\\*/", Comment.Multiline),', '("/\\\\*.*?\\\\*/", Comment.Multiline),'),
+               ("explorerscript/pygments/expslexer.py", "flags = re.MULTILINE | re.DOTALL", "flags = re.DOTALL | re.MULTILINE")]},
+    {"id": "twin-return-addr-none-test", "what": "`x is not None` written as `not (x is None)` in rewrite_offsets",
+     "edits": [("explorerscript/source_map.py", "            if m.return_addr is not None:\n", "            if not (m.return_addr is None):\n")]},
+    {"id": "twin-call-exit-selection", "what": "CallWriteHandler selects the edge after the call with a loop instead of a comprehension",
+     "edits": [("explorerscript/ssb_converting/decompiler/write_handlers/label_jumps/call.py",
+                "        if len(exits_after_call) > 0:\n            return exits_after_call[0].target_vertex\n",
+                "        for e_after in exits_after_call:\n            return e_after.target_vertex\n")]},
+]
+
+
 # --------------------------------------------------------------------------- hand-written mutants (behaviour-breaking; tests stay green)
 
 MUTANTS += [
